@@ -102,6 +102,8 @@ def main(argv):
             runs.append(("plain", base))
             runs.append(("reload", rb.domain_inputs(args.tier, args.seed + 1, "XR", scale=0.2 if quick else 0.4)))
             runs.append(("namespace", namespace_inputs(args.seed, 250 if quick else 1500)))
+            # a client asks for a name of every kind (front-end block kinds included) before the pipeline and after every stage
+            runs.append(("probe", [dict(x, probe_names=True) for x in rb.domain_inputs(args.tier, args.seed + 3, "XB", scale=0.15 if quick else 0.3)]))
             # the same kind of input, built around a generator that has already served another graph
             runs.append(("used-generator", [dict(x, usedgen=True) for x in namespace_inputs(args.seed + 5, 150 if quick else 800)]))
         nbeh = nev = 0
